@@ -229,6 +229,8 @@ def run(tier, seed, only, jobs):
     t0 = time.time()
     U.TIER.update(tier=tier, seed=seed)
     us = units(tier)
+    from props.common import ext_units as _ext
+    us += _ext("C04")
     if only:
         us = [x for x in us if only in x[0]]
     res = core.run_units(us, jobs=jobs)
